@@ -155,10 +155,21 @@ static std::vector<std::string> reg_gen(const GenArgs &ga) {
     int c = (int)r.below(100);
     if ((i == 0 || c < 14) && nsets < 4) {
       int n = 1 + (int)r.below(6);
-      std::string l = strf("op regset prefix=x%d ops=", nsets);
+      // prefixes of every length the 8-byte prefix field can hold a terminated string of (1..7 characters)
+      int pk = (int)r.below(4);
+      std::string prefix = pk == 0 ? strf("extset%d", nsets) : pk == 1 ? strf("%c", 'p' + nsets) : pk == 2 ? strf("plug%d", nsets) : strf("x%d", nsets);
+      std::string l = strf("op regset prefix=%s ops=", prefix.c_str());
       std::vector<std::pair<int, int>> ops;
       for (int k = 0; k < n; k++) {
         int kind = (int)r.below(K_NKINDS), size = 1 << r.below(3);
+        if (r.chance(1, 5)) {
+          // an opcode of the application's that has the very name of a built-in one, and other semantics: the
+          // built-in keeps the name (size 0 here: never used as an extension instruction by later plan lines)
+          int bk = (int)r.below(K_NKINDS - 1);
+          l += strf("%s%s:%s:%d", ops.empty() ? "" : ",", builtin_name(bk, size), kKindName[(bk + 1 + r.below(K_NKINDS - 2)) % (K_NKINDS - 1)], size);
+          ops.push_back({kind, 0});
+          continue;
+        }
         if (name_cursor >= name_order.size()) break;
         const char *nm = kExtNames[name_order[name_cursor++]];
         l += strf("%s%s:%s:%d", ops.empty() ? "" : ",", nm, kKindName[kind], size);
@@ -185,7 +196,7 @@ static std::vector<std::string> reg_gen(const GenArgs &ga) {
         std::set<int> chosen;
         for (int k = 0; k < n; k++) chosen.insert((int)r.below(sets[si].size()));
         bool first = true;
-        for (int k : chosen) { l += strf("%s%d", first ? "" : ",", k); first = false; ruled[{si, k}].push_back(t); }
+        for (int k : chosen) { l += strf("%s%d", first ? "" : ",", k); first = false; if (sets[si][k].second) ruled[{si, k}].push_back(t); }
       }
       if (r.chance(1, 10)) l += ",nosuchopcodename";   // registering a rule for a name the set does not have is refused, not fatal
       rulesets_total++;
@@ -233,7 +244,7 @@ static std::vector<std::string> reg_gen(const GenArgs &ga) {
 // ---------------------------------------------------------------------------
 // registry model + interpreter
 // ---------------------------------------------------------------------------
-struct ExtOp { std::string name; int kind, size, emu_id; };
+struct ExtOp { std::string name; int kind, size, emu_id; bool shadow = false; };
 struct ExtSet { std::string prefix; std::vector<ExtOp> ops; OrcStaticOpcode *arr; int major; };
 struct MRule { int id; };
 struct MRuleSet {
@@ -367,8 +378,10 @@ static void reg_run(const std::vector<std::string> &plan, Child &c) {
       for (auto &item : split(kv(w, "ops"), ',')) {
         auto f = split(item, ':');
         if (f.size() != 3 || next_emu >= MAX_EMU) continue;
-        if (orc_opcode_find_by_name(f[0].c_str())) { c.count("probe.name_already_taken_skipped"); continue; }  // names must be new
         ExtOp o{f[0], kind_from(f[1]), atoi(f[2].c_str()), next_emu++};
+        // a name that is already taken (by a built-in opcode, or by an earlier set) stays with its first owner:
+        // this opcode is registered all the same, and can never be reached by name
+        if (orc_opcode_find_by_name(f[0].c_str())) { o.shadow = true; c.count("probe.extension_opcode_with_a_taken_name"); }
         g_emu[o.emu_id] = EmuInfo{o.kind, o.size};
         s.ops.push_back(o);
       }
@@ -449,7 +462,10 @@ static void reg_run(const std::vector<std::string> &plan, Child &c) {
       for (auto &s : sets)
         for (size_t k = 0; k < s.ops.size(); k++) {
           OrcStaticOpcode *o = orc_opcode_find_by_name(s.ops[k].name.c_str());
-          if (o != s.arr + k)
+          if (s.ops[k].shadow) {
+            if (o == s.arr + k)
+              c.violation("lookup", "builtin-name-resolves-elsewhere", strf("orc_opcode_find_by_name(\"%s\") returns the application's opcode although the name was taken before it was registered", s.ops[k].name.c_str()));
+          } else if (o != s.arr + k)
             c.violation("lookup", "extension-name-resolves-elsewhere", strf("orc_opcode_find_by_name(\"%s\") does not return the extension's opcode", s.ops[k].name.c_str()));
           OrcOpcodeSet *os = orc_opcode_set_find_by_opcode(s.arr + k);
           if (!os || os->opcode_major != s.major || os->opcodes != s.arr)
@@ -473,7 +489,7 @@ static void reg_run(const std::vector<std::string> &plan, Child &c) {
         if (starts(item, "e:")) {
           int s = 0, o = 0;
           if (sscanf(item.c_str() + 2, "%d.%d", &s, &o) != 2 || s >= (int)sets.size() || o >= (int)sets[s].ops.size()) continue;
-          if (sets[s].ops[o].size != size) continue;
+          if (sets[s].ops[o].size != size || sets[s].ops[o].shadow) continue;
           insns.push_back({true, s, o, sets[s].ops[o].kind, sets[s].ops[o].name});
         } else if (starts(item, "b:")) {
           int kind = kind_from(item.substr(2));
